@@ -589,6 +589,11 @@ nextBTreeItems(SetIteration *i)
         else
         {
             i->position = -1;
+            /* The end of the sequence is reported as IndexError; anything
+             * else (a node that could not be loaded, ...) is a real error.
+             */
+            if (!PyErr_ExceptionMatches(PyExc_IndexError))
+                return -1;
             PyErr_Clear();
         }
     }
@@ -629,6 +634,11 @@ nextTreeSetItems(SetIteration *i)
         else
         {
             i->position = -1;
+            /* The end of the sequence is reported as IndexError; anything
+             * else (a node that could not be loaded, ...) is a real error.
+             */
+            if (!PyErr_ExceptionMatches(PyExc_IndexError))
+                return -1;
             PyErr_Clear();
         }
     }
